@@ -286,4 +286,74 @@ theorem sumsq3_nonneg (a b c : ℝ) : 0 ≤ a*a + b*b + c*c :=
 theorem sumsq4_nonneg (a b c d : ℝ) : 0 ≤ a*a + b*b + c*c + d*d :=
   add_nonneg (sumsq3_nonneg a b c) (mul_self_nonneg d)
 
+/-! ### poses -/
+
+def poseQuat (P : Pose) : Quat := P.2.2.2
+def posePos (P : Pose) : Vec3 := (P.1, P.2.1, P.2.2.1)
+def mkPose (p : Vec3) (q : Quat) : Pose := (p.1, p.2.1, p.2.2, q)
+def poseOne : Pose := (0, 0, 0, 1, 0, 0, 0)
+def vadd (a b : Vec3) : Vec3 := (a.1 + b.1, a.2.1 + b.2.1, a.2.2 + b.2.2)
+def vneg (a : Vec3) : Vec3 := (-a.1, -a.2.1, -a.2.2)
+
+@[simp] theorem poseQuat_mkPose (p : Vec3) (q : Quat) : poseQuat (mkPose p q) = q := rfl
+@[simp] theorem posePos_mkPose (p : Vec3) (q : Quat) : posePos (mkPose p q) = p := rfl
+theorem mkPose_eta (P : Pose) : mkPose (posePos P) (poseQuat P) = P := rfl
+
+/-- `mju_rotVecQuat` is linear in the vector (every quaternion) -/
+theorem rotVecQuat_vadd (u w : Vec3) (q : Quat) :
+    rotVecQuat (vadd u w) q = vadd (rotVecQuat u q) (rotVecQuat w q) := by
+  obtain ⟨u0, u1, u2⟩ := u; obtain ⟨w0, w1, w2⟩ := w; obtain ⟨q0, q1, q2, q3⟩ := q
+  simp only [rotVecQuat, vadd, mju_rotVecQuat_eq, rotF, Prod.mk.injEq]
+  refine ⟨?_, ?_, ?_⟩ <;> ring
+
+theorem rotVecQuat_vneg (u : Vec3) (q : Quat) : rotVecQuat (vneg u) q = vneg (rotVecQuat u q) := by
+  obtain ⟨u0, u1, u2⟩ := u; obtain ⟨q0, q1, q2, q3⟩ := q
+  simp only [rotVecQuat, vneg, mju_rotVecQuat_eq, rotF, Prod.mk.injEq]
+  refine ⟨?_, ?_, ?_⟩ <;> ring
+
+theorem vadd3_assoc (a b c : Vec3) : vadd (vadd a b) c = vadd a (vadd b c) := by
+  simp only [vadd, Prod.mk.injEq]; refine ⟨?_, ?_, ?_⟩ <;> ring
+theorem vadd3_vneg (a : Vec3) : vadd a (vneg a) = (0, 0, 0) := by
+  simp only [vadd, vneg, Prod.mk.injEq]; refine ⟨?_, ?_, ?_⟩ <;> ring
+theorem vneg_vadd3 (a : Vec3) : vadd (vneg a) a = (0, 0, 0) := by
+  simp only [vadd, vneg, Prod.mk.injEq]; refine ⟨?_, ?_, ?_⟩ <;> ring
+theorem vadd3_zero (a : Vec3) : vadd a (0, 0, 0) = a := by
+  obtain ⟨a0, a1, a2⟩ := a
+  simp only [vadd, Prod.mk.injEq]; refine ⟨?_, ?_, ?_⟩ <;> ring
+theorem zero_vadd3 (a : Vec3) : vadd (0, 0, 0) a = a := by
+  obtain ⟨a0, a1, a2⟩ := a
+  simp only [vadd, Prod.mk.injEq]; refine ⟨?_, ?_, ?_⟩ <;> ring
+
+/-- `mju_mulPose`, all inputs: position `rot(pos2, quat1) + pos1`, quaternion `normalize4 (quat1·quat2)` -/
+theorem mulPose_eq (A B : Pose) :
+    mulPose A B = mkPose (vadd (rotVecQuat (posePos B) (poseQuat A)) (posePos A))
+      (normalize4 (mulQuat (poseQuat A) (poseQuat B))).2 := by
+  obtain ⟨p0, p1, p2, a0, a1, a2, a3⟩ := A; obtain ⟨r0, r1, r2, b0, b1, b2, b3⟩ := B
+  simp only [mulPose, mkPose, vadd, rotVecQuat, posePos, poseQuat, normalize4, mulQuat, mju_mulPose_eq,
+    mju_rotVecQuat_eq, mju_mulQuat_eq]
+
+/-- `mju_negPose`, all inputs -/
+theorem negPose_eq (P : Pose) :
+    negPose P = mkPose (vneg (rotVecQuat (posePos P) (negQuat (poseQuat P)))) (negQuat (poseQuat P)) := by
+  obtain ⟨p0, p1, p2, q0, q1, q2, q3⟩ := P
+  simp only [negPose, mkPose, vneg, rotVecQuat, posePos, poseQuat, negQuat, mju_negPose_eq,
+    mju_rotVecQuat_eq, mju_negQuat_eq]
+
+/-- `mju_trnVecPose`, all inputs -/
+theorem trnVecPose_eq (P : Pose) (v : Vec3) :
+    trnVecPose P v = vadd (rotVecQuat v (poseQuat P)) (posePos P) := by
+  obtain ⟨p0, p1, p2, q0, q1, q2, q3⟩ := P; obtain ⟨v0, v1, v2⟩ := v
+  simp only [trnVecPose, vadd, rotVecQuat, posePos, poseQuat, mju_trnVecPose_eq, mju_rotVecQuat_eq]
+
+/-! ### helpers for `mju_mat2Quat` -/
+
+theorem pivot_pos (x E : ℝ) (hE : E = (2*x)^2) (hx : 0 < x) : 1/2 * Real.sqrt E = x := by
+  rw [hE, Real.sqrt_sq (by linarith)]; ring
+theorem pivot_neg (x E : ℝ) (hE : E = (2*x)^2) (hx : x < 0) : 1/2 * Real.sqrt E = -x := by
+  have : (2*x)^2 = (2*(-x))^2 := by ring
+  rw [hE, this, Real.sqrt_sq (by linarith)]; ring
+theorem neg_unit (q0 q1 q2 q3 : ℝ) (h : q0*q0+q1*q1+q2*q2+q3*q3 = 1) :
+    (-q0)*(-q0)+(-q1)*(-q1)+(-q2)*(-q2)+(-q3)*(-q3) = 1 := by linear_combination h
+
+
 end MjProof.Spatial
